@@ -21,7 +21,7 @@ func init() {
 	register(&Rule{Name: "STATS-ORDER", Floor: 6,
 		Doc: "TagRPC < InHeader < Begin < handler < End by dominance on the stats projection; later events receive the context TagRPC returned",
 		Run: ruleStatsOrder})
-	register(&Rule{Name: "STATS-PURE", Floor: 6,
+	register(&Rule{Name: "STATS-PURE", Floor: 4,
 		Doc: "code that runs only when a stats handler is installed cannot change or crash the RPC: no return, no response header/body write, no unjustified slicing inside stats-guarded regions",
 		Run: ruleStatsPure})
 	register(&Rule{Name: "IC-ONCE", Floor: 4,
